@@ -626,6 +626,11 @@ func (d *Decoder) decodeLobTo(v reflect.Value) error {
 func (d *Decoder) decodeStructTo(v reflect.Value) error {
 	switch v.Kind() {
 	case reflect.Struct:
+		switch v.Type() {
+		case timestampType, nativeTimeType, decimalType, bigIntType:
+			// These hold an Ion scalar; they have no fields an Ion struct could fill.
+			return fmt.Errorf("ion: cannot decode struct to %v", v.Type().String())
+		}
 		return d.decodeStructToStruct(v)
 
 	case reflect.Map:
